@@ -420,6 +420,35 @@ func errorEdgesReturnTheError(p *Program, fn *ssa.Function) []string {
 	return out
 }
 
+// otherEdgeFailsLoudly: the branch outcome k was decided by an If whose other edge leads only to error
+// exits (returns of a non-nil error) or aborts.
+func otherEdgeFailsLoudly(p *Program, k Cond) bool {
+	if k.V == nil || k.V.Referrers() == nil {
+		return false
+	}
+	for _, r := range *k.V.Referrers() {
+		ifi, ok := r.(*ssa.If)
+		if !ok {
+			continue
+		}
+		b := ifi.Block()
+		other := b.Succs[1]
+		if !k.Branch {
+			other = b.Succs[0]
+		}
+		if len(other.Instrs) == 0 {
+			return false
+		}
+		first := other.Instrs[0]
+		if ret, isR := first.(*ssa.Return); isR {
+			return len(ret.Results) > 0 && definitelyError(RetVal(ret, len(ret.Results)-1))
+		}
+		esc := p.EscapesWithout(b.Parent(), func(ssa.Instruction) bool { return false }, mustOpts{start: first, skipErrEdges: true})
+		return esc == nil
+	}
+	return false
+}
+
 // ---- the restore transfers whenever it runs inside a cluster ---------------------------------------------
 func restoreAlwaysTransfers(c *Ctx, rule string) {
 	p := c.P
@@ -437,6 +466,9 @@ func restoreAlwaysTransfers(c *Ctx, rule string) {
 		}
 		if a.Op == "EQ" && !k.Pol && (a.Args[0].IsField("raft", isParam(restore, 0)) || a.Args[1].IsField("raft", isParam(restore, 0))) {
 			continue // not restoring on start-up
+		}
+		if otherEdgeFailsLoudly(p, k) {
+			continue // a validation: when it does not hold Restore fails with an error, nothing is skipped silently
 		}
 		extra = append(extra, k.String())
 	}
